@@ -175,6 +175,32 @@ func C12(tier string) {
 		}
 	}
 
+	// consecutive requests whose whites differ by less than any plausible rounding
+	// bucket, to the same destination and back: every answer must be for the
+	// request just made
+	for _, a := range base {
+		for _, d := range []float32{2e-7, 1e-6, 4e-6, 1e-5, 3e-5, 1e-4} {
+			for _, dst := range []ciexyy.Color{ciexyy.D50, ciexyy.D65} {
+				a2 := ciexyy.Color{X: a.X + d, Y: a.Y - d/2, YY: 1}
+				for _, q := range []ciexyy.Color{a, a2, a, a2} {
+					for _, viaXYZ := range []bool{false, true} {
+						var got refs.M3
+						if viaXYZ {
+							got = m3of(matrix.Matrix3(ciexyz.AdaptBetweenXYZWhitePoints(ciexyz.ColorFromXYY(q), ciexyz.ColorFromXYY(dst))))
+						} else {
+							got = m3of(matrix.Matrix3(ciexyz.AdaptBetweenXYYWhitePoints(q, dst)))
+						}
+						ref := refs.BradfordAdapt(xyzV(ciexyz.ColorFromXYY(q)), xyzV(ciexyz.ColorFromXYY(dst)))
+						if dd := refs.MaxAbsDiff(got, ref); !(dd <= 1e-9*math.Max(1, ref.NormInf())) {
+							bad("near-sequence", fmt.Sprintf("adaptation (%g,%g)->(%g,%g), requested right after one for a source %g away, differs from the reference by %.3g", q.X, q.Y, dst.X, dst.Y, d, dd), q, dst)
+						}
+						r.Eval(1)
+					}
+				}
+			}
+		}
+	}
+
 	// request sequences: the same request repeated, identity requests, both
 	// constructors, in every order up to length 3 - each answer compared with
 	// the reference whatever was asked before (no state may carry over)
